@@ -193,16 +193,6 @@ def run(tier, logdir):
                         if not ok:
                             bad_c.append((name, s))
 
-        def structural(label, bad, n, what):
-            if n == 0:
-                queries.append({"name": label, "verdict": "VACUOUS", "why": "no %s found in the MIR: the code structure changed" % what, "wall_s": 0})
-                return
-            if not bad:
-                queries.append({"name": label + " (%d call sites)" % n, "verdict": "PASS", "bounds": "every function of the library", "wall_s": 0})
-            for name, s in bad[:3]:
-                art = artefact("%s_%s" % (label[:3], name), {"property": "C06", "rule": label, "function": name, "statement": s})
-                queries.append({"name": "%s: violated in %s" % (label, name), "verdict": "FAIL", "why": "at `%s`" % s[:140], "replayed": True, "replay_path": art, "wall_s": 0})
-
         def artefact(tag, d):
             art_dir = os.path.join(OUT_DIR, "replays", "C06")
             os.makedirs(art_dir, exist_ok=True)
@@ -212,9 +202,68 @@ def run(tier, logdir):
                 json.dump(d, fh, indent=1)
             return art
 
-        structural("(a) terminal output methods are called only from draw_to_term", bad_a, n_ops, "terminal output calls")
-        structural("(b) draw_to_term is called only from Drawable methods", bad_b, n_dtt, "draw_to_term calls")
-        structural("(c) Drawable values are constructed only in ProgressDrawTarget::drawable (Multi: also disconnect)", bad_c, n_ctor, "Drawable constructions")
+        # (a)-(c) over the call graph: a function is BEHIND THE GATE if it is a method of Drawable, or if it has callers in the
+        # library and every one of them is behind the gate (helpers of draw_to_term, draw_to_term itself). Every function that
+        # calls a terminal output method must be behind the gate; the `impl TermLike for Term` shims are the terminal itself.
+        import props.C08 as C08
+        an = C08.Analysis(mir)
+        callers = {}
+        for name, fn in an.fns.items():
+            if "verif" in name or "::tests::" in name:
+                continue
+            for bb, stmts in fn.blocks.items():
+                for s_ in stmts:
+                    c = CALL_RE.match(s_)
+                    if not c:
+                        continue
+                    tgt = an.resolve(c.group(2).strip(), len(M.split_top(c.group(3))) if c.group(3).strip() else 0)
+                    if tgt is not None:
+                        callers.setdefault(tgt.name, set()).add(name)
+        memo = {}
+
+        def gated(name, stack=()):
+            if name in memo:
+                return memo[name]
+            fn = an.fns[name]
+            first = fn.f.params[0][1] if fn.f.params else ""
+            if "Drawable" in first:
+                memo[name] = True
+                return True
+            if name in stack:
+                return True  # a cycle is as gated as its entries
+            cs = callers.get(name, set())
+            ok = bool(cs) and all(gated(c, stack + (name,)) for c in cs)
+            memo[name] = ok
+            return ok
+        term_fns = sorted(set(P.short(n) for n, _ in bad_a) | set())
+        ungated = []
+        n_term_fns = 0
+        for name, fn in an.fns.items():
+            sname = P.short(name)
+            if "verif" in name or "::tests::" in name or sname.startswith(("in_memory", "term_like")):
+                continue
+            has = any(callee_of(s_) and TERM_OP.search(re.sub(r"::<.*?>", "", callee_of(s_))) for st in fn.blocks.values() for s_ in st)
+            if has:
+                n_term_fns += 1
+                if not gated(name):
+                    ungated.append((sname, sorted(P.short(c) for c in callers.get(name, set()))))
+        label_abc = "(a)-(c) every function that calls a terminal output method is behind the gate (a Drawable method, or only called from behind it); %d such functions, %d output call sites" % (n_term_fns, n_ops)
+        if n_ops == 0:
+            queries.append({"name": label_abc, "verdict": "VACUOUS", "why": "no terminal output calls found in the MIR: the code structure changed", "wall_s": 0})
+        elif not ungated:
+            queries.append({"name": label_abc, "verdict": "PASS", "bounds": "call graph of the whole library (calls through closures / trait objects other than TermLike are not followed)", "wall_s": 0})
+        for sname, cs in ungated[:3]:
+            art = artefact("ungated_" + sname, {"property": "C06", "rule": "(a)-(c)", "function": sname, "callers": cs})
+            queries.append({"name": "(a)-(c): %s calls a terminal output method and is reachable without passing the gate" % sname, "verdict": "FAIL",
+                            "why": "callers: %s" % (", ".join(cs) or "none inside the library (entry point)"), "replayed": True, "replay_path": art, "wall_s": 0})
+        # Drawable values are built only by the gate itself
+        if n_ctor == 0:
+            queries.append({"name": "(c) Drawable constructions", "verdict": "VACUOUS", "why": "no Drawable construction found", "wall_s": 0})
+        elif not bad_c:
+            queries.append({"name": "(c) Drawable values are constructed only in ProgressDrawTarget::drawable (Multi: also disconnect) (%d sites)" % n_ctor, "verdict": "PASS", "bounds": "every function of the library", "wall_s": 0})
+        for name, s_ in bad_c[:3]:
+            art = artefact("ctor_" + name, {"property": "C06", "rule": "(c)", "function": name, "statement": s_})
+            queries.append({"name": "(c): a Drawable is constructed outside the gate, in %s" % name, "verdict": "FAIL", "why": "at `%s`" % s_[:140], "replayed": True, "replay_path": art, "wall_s": 0})
 
         # (e) hidden-ness influences behaviour only through drawable(): no function branches on an is_hidden() result.
         #     A branch is only a CANDIDATE (skipping rendering work would be harmless); it is reported after the native
